@@ -1,6 +1,52 @@
-# executed by gen_manifest.py
-claim("C13", "pbt (E2 enumeration + E1 rapid)",
+# executed by gen_manifest.py: claim(pid, engine, technique, level text, level note, design ref)
+SEQ_NOTE = "Trusts the Go toolchain, rapid v1.3.0's generators and the harness's reference model; verdict is exploration only (no proof)."
+
+claim("C01", "pbt E1 (rapid model-based histories)",
+      "model-based property testing: rapid-generated operation histories vs a sorted-multiset model, plus an existential one-tree oracle over the three traversals",
+      "Exploration: rapid generates histories of Add/Remove/Contains/Clear/Clone/Walk over 4 element types/comparators and universes of 4..41 values (duplicates and absent values frequent); after EVERY call both the tree and its clone are compared with sorted-multiset models (in-order, Len, Contains over the universe, String, Remove's result) and pre/in/post-order must be explained by one binary tree (backtracking solver, cross-checked against brute force). Universally quantified over histories, so sampling with shrinking is the applicable level.",
+      SEQ_NOTE + " Comparators are total orders consistent with == (the statement's domain).",
+      "DESIGN.md section 6, C01")
+claim("C02", "pbt E2+E1 (structured enumeration + rapid histories)",
+      "exhaustive structured insertion/deletion orders for every n<=64 + rapid histories; AVL balance decided on the tree reconstructed from pre+in(+post) order after every operation",
+      "Exploration: for every n<=64 and 6x6 structured insertion/deletion patterns (thorough: n up to 4096) and for rapid histories (distinct and duplicate values) the tree is reconstructed from its traversals after every Add/Remove and every node must satisfy |h(l)-h(r)|<=1 (with duplicates: some explaining tree is balanced); depth bound and a comparator-call bound are derived checks.",
+      SEQ_NOTE + " With duplicate values the check is existential over the trees consistent with the traversals (sound, slightly weaker).",
+      "DESIGN.md section 6, C02")
+claim("C07", "pbt E1 (rapid model-based histories)",
+      "model-based property testing: rapid histories on slices.Sorted vs a sorted-slice model, strict orders and a weak order",
+      "Exploration: rapid histories of Add/Remove/RemoveAt/Index/Contains/Get/Len/String (valid and out-of-range positions, present and absent values, caller scribbling on its input slice) against a sorted-slice model; strict total orders get the full positional contract, a weak order only sortedness+multiset (any equivalent element may be removed).",
+      SEQ_NOTE, "DESIGN.md section 6, C07")
+claim("C08", "pbt E2+E1 (all shapes enumerated + rapid)",
+      "exhaustive enumeration of all shapes up to 7x7 (12x12 thorough) with canonical scripts + rapid op lists, against a grid-of-cells model with unique cell values",
+      "Exploration: every width x height in 0..7 (thorough 0..12) with all constructors and canonical scripts (every cell, the whole out-of-bounds ring, all corner orders of Fill, Row/RowSpan liveness both ways, Clone independence) plus rapid op lists; Get over the whole grid is compared with the model after every mutation so aliasing between cells is seen at once.",
+      SEQ_NOTE + " RowSpan with x1>x2 is outside the stated domain and not called.", "DESIGN.md section 6, C08")
+claim("C11", "pbt E2+E1 (exhaustive short histories + rapid)",
+      "exhaustive enumeration of all call sequences up to length 5 (6 thorough) on a 3x3 universe + rapid histories with clones, against a pair-list model with eviction",
+      "Exploration: all sequences of Add/RemoveForward/RemoveReverse/Clear up to length 5 on the zero value, and rapid histories over up to 4 live maps created by Clone; after every call every lookup in both directions, Len, Range (full and early stop) are compared with the model and with each other (mutual inverse).",
+      SEQ_NOTE, "DESIGN.md section 6, C11")
+claim("C12", "pbt E2+E1 (exhaustive small grid + rapid)",
+      "exhaustive (len<=8, spare<=3, index) grid + rapid cases with poisoned spare capacity, against fresh-append splice references; aliasing checked by mutation",
+      "Exploration: every (length, spare capacity, index[, count]) triple in the small grid for Insert/InsertSlice/Remove/RemoveSlice/Grow/Reverse/Clone/Concat, Fill/Repeat for every length up to 70 (300 thorough), rapid one-op and multi-op sequences; results compared exactly with a reference built from fresh appends, spare capacity poisoned with a sentinel, result/input disjointness checked by writing through each.",
+      SEQ_NOTE, "DESIGN.md section 6, C12")
+claim("C13", "pbt E2+E1 (grid enumeration + rapid)",
       "exhaustive enumeration of (n,size) grid + rapid random cases against the partition definitions",
-      "Exploration: every (n,size) with n<=40,size<=45 (thorough: n<=120,size<=125) is enumerated and all six functions are compared with the definitions (piece count ceil(n/size), non-empty pieces, concatenation = input, window/pair i = s[i:i+size], Func variants see the same sequence), plus rapid cases up to n=300. The property is a pure function of (n,size), so a small exhaustive grid plus random larger sizes is the natural level; nothing is proved for n beyond the explored range.",
-      "Trusts the Go toolchain and the harness's reference loops; element type is int (the functions are type-generic and never inspect elements).",
+      "Exploration: every (n,size) with n<=40,size<=45 (thorough: n<=120,size<=125) is enumerated and all six functions are compared with the definitions (piece count ceil(n/size), non-empty pieces, concatenation = input, window/pair i = s[i:i+size], Func variants see the same sequence), plus rapid cases up to n=300. The property is a pure function of (n,size), so a small exhaustive grid plus random larger sizes is the natural level.",
+      SEQ_NOTE + " Element type is int (the functions are type-generic and never inspect elements).",
       "DESIGN.md section 6, C13")
+claim("C14", "pbt E2+E1 (exhaustive short inputs + rapid)",
+      "exhaustive enumeration of short slices x callback parameters + rapid inputs, each helper compared with a naive reference loop; input-untouched and result-is-new checked by snapshot and mutation",
+      "Exploration: every sequence over 0..2 up to length 5 with every callback parameter choice, rapid slices up to length 12 (poisoned spare capacity, nil slices) and rapid maps with duplicate values; every listed helper is compared with its straightforward definition (KeyOf as a validity predicate), the full-capacity input snapshot must be unchanged, every returned slice/map is overwritten to prove it is new (Trim results must be sub-slices).",
+      SEQ_NOTE + " Trim*Func follows the parameter name/non-Func behaviour (true => trimmed); one doc sentence says the opposite (upstream doc slip).",
+      "DESIGN.md section 6, C14")
+claim("C15", "pbt E2+E1 (exhaustive key sequences + rapid)",
+      "exhaustive enumeration of short key sequences (binary keys up to length 13, beyond the insertion-sort threshold) + rapid inputs up to 60 elements with many ties; permutation+order+stability oracles, linear-scan lower bound for the searches, same-seed determinism for ShuffleRand",
+      "Exploration: each sort must leave a permutation that is ordered in the promised direction; Stable variants must keep equal keys in original order (tagged elements, differential against sort.SliceStable); BinarySearch* compared with a linear-scan lower bound for every target; ShuffleRand twice with identically seeded generators must agree and consume the generator.",
+      SEQ_NOTE + " NaN excluded as the statement says.", "DESIGN.md section 6, C15")
+claim("C16", "pbt E2+E1 (exhaustive short histories + rapid bursts)",
+      "exhaustive enumeration of all insert/remove/peek sequences up to length 10 (12 thorough) for 6 container kinds + rapid burst histories, against slice models",
+      "Exploration: every sequence over {insert, remove, peek} up to length 10 on zero-value Queue and nil/empty/spare-capacity Stack, plus rapid histories of fills, drains to empty and refills up to 80 ops; after every call returned values, ok flags, Len and Peek-equals-next-removal are compared with a slice model.",
+      SEQ_NOTE, "DESIGN.md section 6, C16")
+claim("C20", "pbt E2+E1 (exhaustive 8/16/32-bit sweeps + boundary-dense rapid)",
+      "exhaustive sweeps of all int8/uint8/int16/uint16 values, all 8-bit pairs and triples (thorough: all 2^32 int32/uint32 values) + boundary grid and rapid for wide types, against strconv/math-big/definition oracles",
+      "Exploration, exhaustive where the domain is small: Abs/Digits10/DigitsSign10/Clamp01 over every 8/16-bit value (32-bit in thorough), Min/Max/Compare/Less/Sum/Product over every 8-bit pair, Clamp over every 8-bit triple; 64-bit, float, complex and string types via a boundary grid (extremes, powers of ten +-1, +-0, +-Inf, subnormals) plus rapid; utility helpers (Coal, Zero, ZeroOf, IsZero with an IsZero method, Tern, TernCast, Ref, DerefZero, IsNil) via rapid.",
+      SEQ_NOTE + " 64-bit and floating-point domains are sampled, not exhausted; NaN, Abs(min signed), Clamp with lo>hi are outside the statement.",
+      "DESIGN.md section 6, C20")
